@@ -64,6 +64,7 @@ def find_starting_node_from_spec(topology, start_nodes):
                 if molecule.mol_name == res_spec['molname']:
                     node = list(_find_nodes(molecule, res_spec))[0]
                     start_dict[idx] = node
+                    molecule.root = node
     return start_dict
 
 def _initialize_cylces(topology, cycles, tolerance):
